@@ -256,6 +256,7 @@ structure Facts where
   keyChecked : Tri
   recreateKeepsPointer : Tri
   patchAsksFirst : Tri
+  fltSetBitwise : Tri
   saveReleasesImmediate : Tri
   wireExpNe0 : Tri
   deriving DecidableEq, Repr
@@ -263,7 +264,7 @@ structure Facts where
 def kvFacts (f : Facts) : Hv.C06.Facts :=
   ⟨f.resetsFlags, f.metaCompare, f.tsPositive, f.voidClears, f.pushChecksType, f.setSliceReplaces,
    f.u32delReleases, f.u32delChecksType, f.incFailClean, f.noEmptyLive, f.arekAllFalse, f.countMissingOk,
-   f.setErrSingle, f.fltCondDirect, f.keyChecked, f.recreateKeepsPointer, f.patchAsksFirst, f.saveReleasesImmediate, f.wireExpNe0⟩
+   f.setErrSingle, f.fltCondDirect, f.keyChecked, f.recreateKeepsPointer, f.patchAsksFirst, f.fltSetBitwise, f.saveReleasesImmediate, f.wireExpNe0⟩
 
 def cfgOf (f : Facts) : Cfg :=
   { Hv.C06.cfgOf (kvFacts f) with encoding := match f.encoding with | .typeTagged => .typeTagged | _ => .gobOmitZero }
